@@ -16,6 +16,7 @@
 
 from compiler.util import error
 from compiler.util import ir_data
+from compiler.util import ir_data_utils
 from compiler.util import ir_util
 from compiler.util import traverse_ir
 
@@ -101,6 +102,14 @@ def _check_keywords_in_skipped_subtree(
 
 def _add_field_reference_to_dependencies(reference, dependencies, name):
     dependencies[name] |= {ir_util.hashable_form_of_reference(reference.path[0])}
+    # Once the whole path has been resolved (see
+    # find_dependency_cycles_through_members), the field that is actually read is
+    # a dependency, too: `let a = child.a`, with `child` of the enclosing type,
+    # defines `a` in terms of itself.
+    if len(reference.path) > 1 and ir_data_utils.reader(reference.path[-1]).has_field(
+        "canonical_name"
+    ):
+        dependencies[name] |= {ir_util.hashable_form_of_reference(reference.path[-1])}
 
 
 def _add_name_to_dependencies(proto, dependencies):
@@ -374,6 +383,11 @@ def find_dependency_cycles(ir):
     """Finds any dependency cycles in the ir."""
     errors = _find_module_dependency_cycles(ir)
     return errors + _find_object_dependency_cycles(ir)
+
+
+def find_dependency_cycles_through_members(ir):
+    """Finds the cycles that only show once member references are resolved."""
+    return _find_object_dependency_cycles(ir)
 
 
 def set_dependency_order(ir):
